@@ -308,6 +308,7 @@ type obligationResult struct {
 	ReachND     map[string][]nondetRec
 	ReachCount  map[string]int
 	ReachObs    map[string][]string
+	MoreReach   []reachWitness
 	Incon       []string
 	Queries     int
 	Sat, Unsat  int
@@ -485,6 +486,11 @@ func (e *engine) runObligation(fn *ssa.Function, maxPaths int) *obligationResult
 						res.ReachND[id] = ps.reachND[id]
 						res.ReachObs[id] = ps.reachObs[id]
 					}
+					// keep a spread of further witnesses (one per path, every
+					// stride-th path) for native replay
+					if res.ReachCount[id]%reachStride(res.ReachCount[id]) == 0 && len(res.MoreReach) < 24 {
+						res.MoreReach = append(res.MoreReach, reachWitness{ID: id, Model: mdl, ND: ps.reachND[id], Obs: ps.reachObs[id]})
+					}
 				}
 				res.Observes = append(res.Observes, ps.observes...)
 				work = append(work, ps.newWork...)
@@ -568,4 +574,24 @@ func (e *engine) declaredReachIDs(fn *ssa.Function) []string {
 	}
 	sort.Strings(out)
 	return out
+}
+
+type reachWitness struct {
+	ID    string
+	Model map[string]uint64
+	ND    []nondetRec
+	Obs   []string
+}
+
+// reachStride spreads the extra replayed witnesses over the path space.
+func reachStride(n int) int {
+	switch {
+	case n < 16:
+		return 2
+	case n < 256:
+		return 16
+	case n < 4096:
+		return 256
+	}
+	return 2048
 }
